@@ -40,6 +40,7 @@ fn main() {
         "mod" => modl::line,
         "pos" => pos::line,
         "prog" => prog::line,
+        "proge" => prog::line_escaped,
         "regalloc" => regalloc::line,
         "susp" => susp::line,
         "json" => json::line,
